@@ -33,7 +33,7 @@ import gen as c20gen  # noqa: E402
 THEOREMS = ["JanetModel.Props.C20." + t for t in (
     "done_expr_match", "counter_sites_match", "poll_phase_match", "root_sites_match",
     "step_inv", "run_inv", "listener_count_inv", "no_premature_exit", "no_hang_when_idle", "loopDone_iff_idle",
-    "null_event_keeps_loop_alive", "collected_suspended_task_keeps_count",
+    "null_event_keeps_loop_alive", "nullStuck_zero", "loopDone_iff_idle_fixed", "collected_suspended_task_keeps_count",
     "dropStale_all_stale", "dropStale_head_live", "dropStale_sublist", "stale_timers_cannot_keep_loop_alive", "pollPrelude_counters",
     "roots_balanced", "tchanLeaked_zero", "roots_balanced_released", "tchan_root_never_released", "gc_listener_leaves_stream_root")]
 
@@ -139,7 +139,11 @@ def judge_mix(expect, chosen, rc, out, err):
             probs.append(("roots-unbalanced-at-exit",
                           "gc root count %s at loop return, %s before the program started" % (returned.get("roots"), steps[0][2].get("roots"))))
     else:
-        if "WATCHDOG" in out or rc is None:
+        if "IDLE-NOT-DONE" in out:
+            probs.append(("hang-after-all-work" + ("" if missing else ":all-completions-logged"),
+                          "nothing is outstanding, runnable or timed (independent ground truth) but janet_loop_done() is false - the loop blocks for ever: %s; "
+                          "tasks not completed: %s" % ([l for l in out.splitlines() if l.startswith("IDLE-NOT-DONE")][:1], missing)))
+        elif "WATCHDOG" in out or rc is None:
             if not missing:
                 probs.append(("hang-after-all-work", "all %d expected completions were logged but the event loop did not return: %s"
                               % (len(expect), [l for l in out.splitlines() if l.startswith("WATCHDOG")][:1])))
@@ -305,14 +309,27 @@ def run(ctx):
         ctx.violation(sig, {"kind": "cycle", "name": v["name"], "N": v["N"], "params": v["params"], "source": v["src"],
                             "measures": v["measures"], "leaks": v["leaks"], "fail": v["fail"]}, what=what)
 
-    # ---------------- (E2) task mixes: termination oracle + per-step ground truth
+    # ---------------- (E2) task mixes: termination oracle + per-step ground truth.  Corpus scenarios run first.
     nmix = 48 if quick else 600
     mjobs = []
+    cdir = os.path.join(VERIF, "corpus", "C20")
+    corpus = []
+    for fn in sorted(os.listdir(cdir)) if os.path.isdir(cdir) else []:
+        if fn.endswith(".json"):
+            with open(os.path.join(cdir, fn)) as f:
+                corpus.append((fn, json.load(f)))
     for i in range(nmix):
         r = ctx.rng.fork("mix/%d" % i)
         mjobs.append((r, r.range(1, 4) if i % 4 == 0 else r.range(4, 14), i))
+    def run_corpus(item):
+        fn, c = item
+        rc, out, err = run_script(hx, c["source"], "corpus-" + fn, args=("--snap", "--events"), timeout=300, watchdog=100)
+        expect = {int(k): v for k, v in c["expect"].items()}
+        probs, info = judge_mix(expect, c["tasks"], rc, out, err)
+        return {"idx": "corpus/" + fn, "src": c["source"], "expect": expect, "chosen": c["tasks"], "probs": probs, "info": info, "out": out,
+                "rc": rc, "err": err[-2000:]}
     with cf.ThreadPoolExecutor(12) as ex:
-        mixes = list(ex.map(lambda j: run_mix(hx, *j), mjobs))
+        mixes = list(ex.map(run_corpus, corpus)) + list(ex.map(lambda j: run_mix(hx, *j), mjobs))
     kinds_hit = {}
     total_steps = 0
     seen_sigs = set()
@@ -325,7 +342,7 @@ def run(ctx):
                 continue
             seen_sigs.add(sig)
             ctx.violation(sig, {"kind": "mix", "source": m["src"], "expect": m["expect"], "tasks": m["chosen"], "problems": m["probs"],
-                                "stdout_tail": m["out"][-3000:], "stderr_tail": m["err"]}, what="task mix #%d: %s" % (m["idx"], what))
+                                "stdout_tail": m["out"][-3000:], "stderr_tail": m["err"]}, what="task mix #%s: %s" % (m["idx"], what))
 
     # ---------------- (D) correspondence: the Lean model replays the semantic event log of every mix and must agree with the
     # real counters after every janet_loop1 step
@@ -346,7 +363,7 @@ def run(ctx):
                 corr_diffs.append((m, d))
         if corr_diffs:
             m, d = corr_diffs[0]
-            broken.append("correspondence model/implementation: %d of %d mixes differ; first (mix #%d): %s" % (len(corr_diffs), len(mixes), m["idx"], d[0]))
+            broken.append("correspondence model/implementation: %d of %d mixes differ; first (mix #%s): %s" % (len(corr_diffs), len(mixes), m["idx"], d[0]))
             ctx.broken.append(broken[-1])
     # the generated flag says the threaded-channel root is never released: the model proves the leak (tchan_root_never_released);
     # the cycles above show it on the implementation
